@@ -154,8 +154,18 @@ func cmdVerify(args []string) int {
 		}
 	}
 	t0 := time.Now()
+	explicit := len(names) > 0
+	if len(names) == 0 {
+		for _, n := range s.CS.Order {
+			if fc := s.CS.Funcs[n]; !fc.Trusted {
+				names = append(names, n)
+			}
+		}
+	}
 	res := s.VerifyNamed(names)
-	res = append(res, s.VerifyLemmas(nil)...)
+	if !explicit {
+		res = append(res, s.VerifyLemmas(nil)...)
+	}
 	SolveAll(s.R, res)
 	rc := 0
 	for _, fr := range res {
